@@ -19,6 +19,12 @@ CLAIMED = {
         "design": "DESIGN.md §6 C01"},
 }
 
+# further claims: props/<id>.manifest.json with keys text, note, technique, design
+for _p in ALL:
+    _f = os.path.join(ROOT, "props", _p.lower() + ".manifest.json")
+    if os.path.exists(_f):
+        CLAIMED[_p] = json.load(open(_f))
+
 NOT_YET = "not yet built in this development (the Coq model and check for it are still to be written); no claim is made"
 
 
